@@ -26,9 +26,11 @@ package errbase
 // ---- registries: a registered encoder/decoder is never nil (Register* delete on nil) ----
 
 //@ global invariant regs_nonnil: (forall k TypeKey :: leafDecoders.has(k) ==> leafDecoders[k] != nil) && (forall k TypeKey :: decoders.has(k) ==> decoders[k] != nil) && (forall k TypeKey :: multiCauseDecoders.has(k) ==> multiCauseDecoders[k] != nil) && (forall k TypeKey :: leafEncoders.has(k) ==> leafEncoders[k] != nil) && (forall k TypeKey :: encoders.has(k) ==> encoders[k] != nil)
+
 //@ global invariant regs_alloc: leafDecoders != nil && decoders != nil && multiCauseDecoders != nil && leafEncoders != nil && encoders != nil
 
 //@ global invariant warn_nonnil: warningFn != nil
+
 //@ func SetWarningFn
 //@   props C05
 //@   requires fn != nil
@@ -37,15 +39,19 @@ package errbase
 //@ func RegisterLeafDecoder
 //@   props C05
 //@   maintains regs_nonnil
+
 //@ func RegisterWrapperDecoder
 //@   props C05
 //@   maintains regs_nonnil
+
 //@ func RegisterMultiCauseDecoder
 //@   props C05
 //@   maintains regs_nonnil
+
 //@ func RegisterLeafEncoder
 //@   props C05
 //@   maintains regs_nonnil
+
 //@ func RegisterWrapperEncoderWithMessageType
 //@   props C05
 //@   maintains regs_nonnil
@@ -53,12 +59,19 @@ package errbase
 // ---- decoding is total (C05) ----
 
 //@ spec func wrapperOf(e errorspb.EncodedError) *errorspb.EncodedWrapper = typeis(e.Error, *errorspb.EncodedError_Wrapper) ? e.Error.(*errorspb.EncodedError_Wrapper).Wrapper : nil
+
 //@ spec func leafOf(e errorspb.EncodedError) *errorspb.EncodedErrorLeaf = typeis(e.Error, *errorspb.EncodedError_Leaf) ? e.Error.(*errorspb.EncodedError_Leaf).Leaf : nil
+
 //@ spec func completeLeaf(l *errorspb.EncodedErrorLeaf) bool
+
 //@ unfold completeLeaf(l) = l != nil && (forall i int :: 0 <= i && i < len(l.MultierrorCauses) ==> l.MultierrorCauses[i] != nil && complete(deref(l.MultierrorCauses[i])))
+
 //@ spec func completeWrapper(w *errorspb.EncodedWrapper) bool
+
 //@ unfold completeWrapper(w) = w != nil && complete(w.Cause)
+
 //@ spec func complete(e errorspb.EncodedError) bool
+
 //@ unfold complete(e) = wrapperOf(e) != nil ? completeWrapper(wrapperOf(e)) : completeLeaf(leafOf(e))
 
 //@ func DecodeError
@@ -66,6 +79,7 @@ package errbase
 //@   requires complete(enc)
 //@   defines decOf(enc)
 //@   ensures result != nil
+//@   requires[C03,C12] safeEnc(enc)
 
 //@ func decodeLeaf
 //@   props C05 C01 C04 C11 C13
@@ -77,6 +91,7 @@ package errbase
 //@   ensures (leafDecoders.has(enc.Details.ErrorTypeMark.FamilyName) && callres0(leafDecoders[enc.Details.ErrorTypeMark.FamilyName], ctx, enc.Message, enc.Details.ReportablePayload, payloadOf(enc.Details.FullDetails)) != nil) ==> result == callres0(leafDecoders[enc.Details.ErrorTypeMark.FamilyName], ctx, enc.Message, enc.Details.ReportablePayload, payloadOf(enc.Details.FullDetails))
 //@   loop 1: invariant forall j int :: 0 <= j && j < $n ==> causes[j] == decOf(deref(enc.MultierrorCauses[j]))
 //@   loop 2: invariant forall j int :: 0 <= j && j < $n ==> causes[j] == decOf(deref(enc.MultierrorCauses[j]))
+//@   requires[C03,C12] safeEncLeaf(enc)
 
 //@ func decodeWrapper
 //@   props C05 C01 C04 C11
@@ -87,24 +102,30 @@ package errbase
 //@   ensures !(decoders.has(enc.Details.ErrorTypeMark.FamilyName) && callres0(decoders[enc.Details.ErrorTypeMark.FamilyName], ctx, decOf(enc.Cause), enc.Message, enc.Details.ReportablePayload, payloadOf(enc.Details.FullDetails)) != nil) ==> typeis(result, *opaqueWrapper) && result.(*opaqueWrapper).cause == decOf(enc.Cause) && result.(*opaqueWrapper).prefix == enc.Message && result.(*opaqueWrapper).details == enc.Details && result.(*opaqueWrapper).messageType == enc.MessageType
 
 // ---- the opaque carrier types ----
+//@   requires[C03,C12] safeEncWrapper(enc)
 
 //@ type opaqueWrapper invariant self.cause != nil
 
 //@ method (*opaqueLeaf).Error
 //@   props C01 C04 C10
 //@   ensures result == self.msg
+
 //@ method (*opaqueWrapper).Cause
 //@   props C07 C04 C14
 //@   ensures result == self.cause
+
 //@ method (*opaqueWrapper).Unwrap
 //@   props C07 C04 C14
 //@   ensures result == self.cause
+
 //@ method (*opaqueLeafCauses).Unwrap
 //@   props C13 C04
 //@   ensures result == self.causes
+
 //@ method (*opaqueLeaf).SafeDetails
 //@   props C04 C03 C12
 //@   ensures result == self.details.ReportablePayload
+
 //@ method (*opaqueWrapper).SafeDetails
 //@   props C04 C03 C12
 //@   ensures result == self.details.ReportablePayload
@@ -114,18 +135,23 @@ package errbase
 //@ func FormatError
 //@   props C09
 //@   requires err != nil
+
 //@ func FormatRedactableError
 //@   props C09 C06
 //@   requires err != nil
 
 //@ type OpaqueErrno invariant self.details != nil
+
 //@ type errorFormatter invariant self.err != nil
 
 // ---- type names, migrations (C17, C02) ----
 
 //@ spec func fullNameT(t Type) string
+
 //@ spec func keyMarkerM(e error) string
+
 //@ spec func closedReg(r map[TypeKey]TypeKey) bool = forall k TypeKey :: r.has(k) ==> !r.has(r[k])
+
 //@ spec func resolveKey(r map[TypeKey]TypeKey, k TypeKey) TypeKey = r.has(k) ? r[k] : k
 
 //@ func getFullTypeName
@@ -170,11 +196,15 @@ package errbase
 
 // regStep: the registry after one registration, as a pure function of the old registry (spec of
 // RegisterTypeMigration; tied to the code by the last ensures below)
+
 //@ spec func regStep(r map[TypeKey]TypeKey, pk TypeKey, nk TypeKey) map[TypeKey]TypeKey
+
 //@ axiom regStep_has: forall r map[TypeKey]TypeKey, pk TypeKey, nk TypeKey, x TypeKey :: {regStep(r, pk, nk).has(x)} regStep(r, pk, nk).has(x) == (r.has(x) || x == nk)
+
 //@ axiom regStep_get: forall r map[TypeKey]TypeKey, pk TypeKey, nk TypeKey, x TypeKey :: {regStep(r, pk, nk)[x]} regStep(r, pk, nk)[x] == (x == nk ? resolveKey(r, pk) : (r[x] == nk ? resolveKey(r, pk) : r[x]))
 
 //@ spec func rootOf(e error) error
+
 //@ unfold rootOf(e) = cause1(e) != nil ? rootOf(cause1(e)) : e
 
 //@ func UnwrapAll
@@ -191,14 +221,21 @@ package errbase
 // ======================================================================================
 
 //@ spec func encOf(e error) errorspb.EncodedError
+
 //@ spec func decOf(x errorspb.EncodedError) error
+
 //@ spec func detailsOf(e error) errorspb.EncodedErrorDetails
+
 //@ spec func isOpaque(e error) bool = typeis(e, *opaqueLeaf) || typeis(e, *opaqueLeafCauses) || typeis(e, *opaqueWrapper)
+
 //@ spec func keyOf(e error) TypeKey = resolveKey(backwardRegistry, fullNameT(typeof(e)))
+
 //@ spec func extOf(e error) string = hasMethod(typeof(e), "ErrorKeyMarker() string") ? keyMarkerM(e) : ""
+
 //@ spec func safeDetailsOf(e error) []string = hasMethod(typeof(e), "SafeDetails() []string") ? SafeDetailsM(e) : nil
 
 // how an opaque wrapper (i.e. a receiver that does not know the type) re-assembles the text
+
 //@ spec func reasm(prefix string, mt MessageType, causeText string) string = mt == FullMessage ? prefix : (prefix == "" ? causeText : prefix + ": " + causeText)
 
 //@ func extractPrefix
@@ -256,6 +293,7 @@ package errbase
 //@   props C01 C04 C13
 //@   trusted "promoted method: synthetic wrapper around (*opaqueLeaf).Error on the embedded struct"
 //@   ensures result == self.msg
+
 //@ method (*opaqueLeafCauses).SafeDetails
 //@   props C04 C03 C12
 //@   trusted "promoted method: synthetic wrapper around (*opaqueLeaf).SafeDetails on the embedded struct"
@@ -267,6 +305,7 @@ package errbase
 
 // foreign formatting methods receive the state as a Printer / fmt.State: they can only reach it
 // through Print/Printf/Detail/Write, which never touch the entry list
+
 //@ spec func treeSize(e error) int
 
 //@ global invariant detailsep_len: len(detailSep) == 5
@@ -308,7 +347,57 @@ package errbase
 //@   loop 1: invariant numChildren >= 0 && len(self.entries) == old(len(self.entries)) + numChildren
 
 //@ global invariant specialcases_nonnil: forall i int :: 0 <= i && i < len(specialCases) ==> specialCases[i] != nil
+
 //@ func RegisterSpecialCasePrinter
 //@   props C05 C03
 //@   requires fn != nil
 //@   maintains specialcases_nonnil
+
+// ======================================================================================
+// C03 / C12: the wire invariant "what a peer running this library puts into the PII-free fields of
+// the message is PII-free" (type names, type marks, reportable payload, payload type URL), carried
+// by EncodeError (ensures) and required by DecodeError; the opaque carriers keep it as invariant.
+// ======================================================================================
+
+//@ spec func safeDetailsW(d errorspb.EncodedErrorDetails) bool = safeS(d.OriginalTypeName) && safeS(d.ErrorTypeMark.FamilyName) && safeS(d.ErrorTypeMark.Extension) && safeSeq(d.ReportablePayload) && (d.FullDetails != nil ==> safeS(d.FullDetails.TypeUrl))
+
+//@ spec func safeEncLeaf(l *errorspb.EncodedErrorLeaf) bool
+
+//@ unfold safeEncLeaf(l) = l != nil ==> (safeDetailsW(l.Details) && (forall i int :: 0 <= i && i < len(l.MultierrorCauses) && l.MultierrorCauses[i] != nil ==> safeEnc(deref(l.MultierrorCauses[i]))))
+
+//@ spec func safeEncWrapper(w *errorspb.EncodedWrapper) bool
+
+//@ unfold safeEncWrapper(w) = w != nil ==> (safeDetailsW(w.Details) && safeEnc(w.Cause))
+
+//@ spec func safeEnc(e errorspb.EncodedError) bool
+
+//@ unfold safeEnc(e) = safeEncWrapper(wrapperOf(e)) && safeEncLeaf(leafOf(e))
+
+//@ type opaqueLeaf invariant[C03,C12] safeDetailsW(self.details)
+
+//@ type opaqueLeafCauses invariant[C03,C12] safeDetailsW(self.details)
+
+//@ type opaqueWrapper invariant[C03,C12] safeDetailsW(self.details)
+
+//@ func GetSafeDetails
+//@   props C03 C12
+//@   requires err != nil
+//@   ensures result.OriginalTypeName == (typeis(err, *opaqueLeaf) ? err.(*opaqueLeaf).details.OriginalTypeName : (typeis(err, *opaqueLeafCauses) ? err.(*opaqueLeafCauses).details.OriginalTypeName : (typeis(err, *opaqueWrapper) ? err.(*opaqueWrapper).details.OriginalTypeName : fullNameT(typeof(err)))))
+//@   ensures result.ErrorTypeMark == tmark(err)
+//@   ensures hasMethod(typeof(err), "SafeDetails() []string") ==> result.SafeDetails == SafeDetailsM(err)
+//@   ensures[C03] safeS(result.OriginalTypeName) && safeS(result.ErrorTypeMark.FamilyName) && safeS(result.ErrorTypeMark.Extension) && safeSeq(result.SafeDetails)
+
+//@ method (*SafeDetailPayload).Fill
+//@   props C03 C12
+//@   conceal safeSeq
+//@   uses safe_append safe_elem
+//@   ensures[C03] safeSeq(slice) && safeSeq(self.SafeDetails) && safeS(self.ErrorTypeMark.FamilyName) && safeS(self.ErrorTypeMark.Extension) ==> safeSeq(result)
+//@   ensures len(result) >= len(slice)
+//@   loop 1: invariant safeSeq(old(slice)) && safeSeq(self.SafeDetails) && safeS(self.ErrorTypeMark.FamilyName) && safeS(self.ErrorTypeMark.Extension) ==> safeSeq(slice)
+//@           invariant len(slice) >= len(old(slice))
+
+//@ func GetAllSafeDetails
+//@   props C03 C12
+//@   conceal safeSeq
+//@   ensures[C03] forall i int :: 0 <= i && i < len(result) ==> safeS(result[i].OriginalTypeName) && safeS(result[i].ErrorTypeMark.FamilyName) && safeS(result[i].ErrorTypeMark.Extension) && safeSeq(result[i].SafeDetails)
+//@   loop 1: invariant forall i int :: 0 <= i && i < len(details) ==> safeS(details[i].OriginalTypeName) && safeS(details[i].ErrorTypeMark.FamilyName) && safeS(details[i].ErrorTypeMark.Extension) && safeSeq(details[i].SafeDetails)
